@@ -59,6 +59,8 @@ Proof.
     assert (Hclen : length (comp_enc t v) = clen) by apply comp_enc_length.
     replace (N.of_nat (tl_size t + tl_size (N.of_nat (length v))) + N.of_nat (length v)) with (N.of_nat clen)
       by (unfold clen; lia).
+    replace (Z.of_nat (length (comp_enc t v ++ concat n)) <? Z.of_N (N.of_nat clen))%Z with false
+      by (rewrite app_length, Hclen; lia).
     replace (N.to_nat (N.min (N.of_nat clen) (N.of_nat (length w)))) with clen
       by (rewrite Hw, app_length, Hclen; lia).
     rewrite Hw. rewrite firstn_app_exact', skipn_app_exact' by (symmetry; exact Hclen).
